@@ -10,7 +10,10 @@ CHECK = {
          "cases_quick": {"buckets": [1, 2], "bucketNanos": [16], "halfOpenMax": [1, 2]},
          "cases_thorough": {"buckets": [1, 2, 3], "bucketNanos": [1, 16], "halfOpenMax": [1, 2]}},
         {"fn": P + "vC47_history", "opts": HOPTS, "tiers": ("thorough",),
-         "cases": {"buckets": [1, 2], "bucketNanos": [16], "halfOpenMax": [1], "calls": [2], "nested": [0, 1]},
+         "cases": {"buckets": [1, 2], "bucketNanos": [16], "halfOpenMax": [1], "calls": [2], "nested": [0]},
+         "cover_optional": ("closed-again", "rejected-halfopen-full", "half-open", "opened", "rejected-open")},
+        {"fn": P + "vC47_history", "opts": HOPTS, "tiers": ("thorough",),
+         "cases": {"buckets": [1], "bucketNanos": [16], "halfOpenMax": [1], "calls": [2], "nested": [1]},
          "cover_optional": ("closed-again", "rejected-halfopen-full", "half-open", "opened", "rejected-open")},
         {"fn": P + "vC47_buckets", "opts": {"fresh_solver": True}, "cases": {"buckets": [1, 2, 3], "bucketNanos": [1, 10]}},
         {"fn": P + "vC47_sanitize"},
@@ -21,7 +24,7 @@ CHECK = {
     "opts": {"unwind": 10, "select_precise": True},
     "explanation": "CircuitBreaker.Execute / tryAcquire / release / invoke / record / transitionTo / State, bucketWindow.add / advanceLocked / hardResetLocked / totalsLocked / reset / snapshot, newBuckets, NewCircuitBreaker and options.Sanitize are executed symbolically with an injected harness clock (arbitrary non-decreasing; advances between calls and while the protected function runs). "
                    "vC47_step: ONE call from an arbitrary breaker state (state, open deadline, probe tokens held by other in-flight calls, ring contents on the bucket grid with <= 1 success and <= 1 failure per bucket), symbolic failure rate (any double in [0,1]), minRequests 1..8, open timeout, outcome success/failure/caller-cancel/context-already-done; expected admission, result, next state, open deadline, token count and window totals are written from the property. "
-                   "vC47_buckets: one add() from an arbitrary ring state (counts < 2^20) against per-bucket semantics incl. the representation invariant. vC47_history (thorough): 2 calls, the second possibly made from inside the first (overlapping), from a fresh breaker against an event-log model. "
+                   "vC47_buckets: one add() from an arbitrary ring state (counts < 2^20) against per-bucket semantics incl. the representation invariant. vC47_history (thorough): 2 calls from a fresh breaker (buckets 1,2), and 2 calls each with a further overlapping call made from inside it (buckets 1), against an event-log model. "
                    "vC47_probes (Mode C): 2 (thorough: 3) concurrent callers on an open breaker whose timeout elapsed, all interleavings with <= 3 context switches per thread: never more than halfOpenMaxCalls protected functions in flight, every token returned. vC47_sanitize: Sanitize yields valid options for arbitrary raw options.",
     "bounds": {"step": "buckets 1..3 (quick 1,2), bucket duration 16 ns (thorough also 1 ns), halfOpenMaxCalls 1..2, per-bucket counts <= 1 (window total <= 7), times < 2^41 ns", "history": "2 calls", "probes": "quick 2 callers cap 1; thorough 3 callers cap 1,2; 3 rounds",
                "float": "int->float64 conversions and the quotient fail/total are tabulated over 0..8 (bound proven as an obligation); the rate comparison is IEEE double"},
